@@ -620,9 +620,38 @@ class Fn:
             raise Unsupported("statement " + type(st).__name__ + ": " + ast.unparse(st)[:80])
         return False
 
+    KIND_CLASSES = {"B": {"bytes", "bytearray"}, "S": {"str"}, "SB": {"str", "bytes"}, "N": {"int"}, "I": {"int"}}
+    KNOWN_CLASSES = {"bytes", "bytearray", "memoryview", "str", "int", "float", "complex", "list", "tuple", "dict", "set", "frozenset"}
+
+    def static_isinstance(self, t):
+        """`isinstance(x, T)` / `not isinstance(x, T)` decided by the kind of `x` (the values the theorem quantifies over):
+        False when no class of T can hold such a value, True when T names every class the kind stands for; else None"""
+        neg = False
+        if isinstance(t, ast.UnaryOp) and isinstance(t.op, ast.Not):
+            neg = True; t = t.operand
+        if not (isinstance(t, ast.Call) and ast.unparse(t.func) == "isinstance" and len(t.args) == 2 and not t.keywords
+                and isinstance(t.args[0], ast.Name)):
+            return None
+        have = self.KIND_CLASSES.get(self.types.get(t.args[0].id))
+        T = t.args[1]
+        names = [ast.unparse(x) for x in (T.elts if isinstance(T, ast.Tuple) else [T])]
+        if have is None or not names or not all(n in self.KNOWN_CLASSES for n in names):
+            return None
+        ts = set(names)
+        if "int" in have and ("float" in ts or "complex" in ts):
+            pass                                           # disjoint from int as well
+        if not (ts & have):
+            return neg
+        if have <= ts:
+            return not neg
+        return None
+
     def if_stmt(self, st, rest, out, ind, ret_kind):
         """returns True when the translation of `st` also consumed `rest` (all paths closed)"""
         t = st.test
+        sv = self.static_isinstance(t)
+        if sv is not None:                                  # a branch no value of the parameter's kind can take
+            return self.block(list(st.body if sv else st.orelse), out, ind, ret_kind)
         # --- `x is None` / `x is not None`
         if isinstance(t, ast.Compare) and len(t.ops) == 1 and isinstance(t.ops[0], (ast.Is, ast.IsNot)) \
                 and isinstance(t.left, ast.Name) and isinstance(t.comparators[0], ast.Constant) and t.comparators[0].value is None:
